@@ -100,11 +100,24 @@ func logText(rs []res, order []int) string {
 		}
 		fmt.Fprintf(&sb, "Benchmark%s 1", rs[i].bench)
 		for j, u := range rs[i].units {
-			fmt.Fprintf(&sb, " %s %s", strconv.FormatFloat(rs[i].vals[j], 'g', -1, 64), u)
+			fmt.Fprintf(&sb, " %s %s", spellFloat(rs[i].vals[j], i+j), u)
 		}
 		sb.WriteByte('\n')
 	}
 	return sb.String()
+}
+
+// spellFloat writes a measurement as a log would: NaN and the infinities in varying spellings.
+func spellFloat(v float64, k int) string {
+	switch {
+	case math.IsNaN(v):
+		return []string{"NaN", "nan", "NAN"}[k%3]
+	case math.IsInf(v, 1):
+		return []string{"+Inf", "inf", "Inf", "+inf", "INF"}[k%5]
+	case math.IsInf(v, -1):
+		return []string{"-Inf", "-inf", "-INF"}[k%3]
+	}
+	return strconv.FormatFloat(v, 'g', -1, 64)
 }
 
 func addAll(b *benchseries.Builder, rs []res, order []int) {
@@ -961,6 +974,50 @@ func subsecCases(r *hx.Rand) {
 			tags = append(tags, "reader")
 		}
 		run(g, r.Bool(), tags)
+		viaReader = false
+	}
+}
+
+// nanCases: cells containing NaN (one or several) and infinite measurements: the delivered series — values, their
+// order (sort.Float64s puts NaN first), hash, summaries — must not depend on the adding order.
+func nanCases(r *hx.Rand) {
+	nan := math.NaN()
+	mk := func(role string, v float64) res {
+		return res{table: []string{"amd64", "linux"}, bench: "Foo", exp: expsA[0], ser: stampsA[0], role: role, nh: "n0", dh: "d0", units: []string{"B/op"}, vals: []float64{v}}
+	}
+	one := []res{mk("num", 30), mk("num", nan), mk("num", 20), mk("num", 25), mk("den", 10)}
+	two := []res{mk("num", 3), mk("num", nan), mk("den", nan), mk("den", 2), mk("den", nan)}
+	inf := []res{mk("num", math.Inf(1)), mk("num", 5), mk("den", math.Inf(-1)), mk("den", 7), mk("num", nan)}
+	for pol := 0; pol < 2; pol++ {
+		seriesCase(one, 0, pol, r, []string{"corpus", "nan"})
+		seriesCase(two, 2, pol, r, []string{"corpus", "nan"})
+	}
+	viaReader = true
+	seriesCase(one, 0, 0, r, []string{"corpus", "nan", "reader"})
+	seriesCase(inf, 0, 1, r, []string{"corpus", "nan", "inf", "reader"})
+	viaReader = false
+	seriesCase(inf, 2, 0, r, []string{"corpus", "nan", "inf"})
+	n := hx.N(40, 600)
+	for i := 0; i < n; i++ {
+		rs, nt, tags := genSeries(r, 3+r.Intn(6))
+		viaReader = r.Chance(1, 2)
+		for a := range rs {
+			for b := range rs[a].vals {
+				if viaReader {
+					rs[a].units[b] = []string{"B/op", "allocs/op", "widgets/op"}[b%3]
+				}
+				switch r.Intn(6) {
+				case 0, 1:
+					rs[a].vals[b] = nan
+				case 2:
+					rs[a].vals[b] = math.Inf(1 - 2*r.Intn(2))
+				}
+			}
+		}
+		if viaReader {
+			tags = append(tags, "reader")
+		}
+		seriesCase(rs, nt, r.Intn(2), r, append(tags, "nan"))
 		viaReader = false
 	}
 }
@@ -2005,6 +2062,7 @@ func main() {
 	dupUnitCases(r)
 	collideCases(r)
 	subsecCases(r)
+	nanCases(r)
 	nl := hx.N(60, 1000)
 	for i := 0; i < nl; i++ {
 		rs, nt, tags := genSeries(r, 6+r.Intn(20))
